@@ -10,7 +10,7 @@ for id in $IDS; do
   if [ -n "$(git status --porcelain --untracked-files=no)" ]; then echo "/repo not clean"; exit 9; fi
   git apply /verif/$P || { echo "$id: patch does not apply"; cd /verif; continue; }
   cd /verif
-  CHECKS=$id
+  CHECKS=${id:0:3}
   [ $id = C14 ] && CHECKS="C14 C15"
   [ $id = C09 ] && CHECKS="C09 C07"
   RES=""
